@@ -49,6 +49,8 @@ type Uni struct {
 	// Stream is called for subscription source fields; it must return a value assignable to
 	// the resolver's channel result type (or an error).
 	Stream func(ctx context.Context, path string, chanType reflect.Type, fd *ast.FieldDefinition) (reflect.Value, error)
+	// Custom overrides the plan for specific fields ("Type.field"): used for upload resolvers.
+	Custom map[string]func(ctx context.Context, args []reflect.Value) (any, error)
 	// KeyPrefix distinguishes concurrent requests: it is prepended to park and log keys.
 	KeyPrefix func(ctx context.Context) string
 	// OnCall observes every resolver/directive invocation before it parks.
@@ -189,6 +191,13 @@ func (u *Uni) call(objType string, fd *ast.FieldDefinition, ft reflect.Type, arg
 		return retErr(ft, ctx.Err())
 	}
 	out0 := ft.Out(0)
+	if f := u.Custom[objType+"."+fd.Name]; f != nil {
+		v, err := f(ctx, args)
+		if err != nil {
+			return retErr(ft, err)
+		}
+		return []reflect.Value{reflect.ValueOf(v).Convert(out0), reflect.Zero(errType)}
+	}
 	if out0.Kind() == reflect.Chan {
 		if u.Stream == nil {
 			return retErr(ft, errors.New("no stream source"))
